@@ -12,17 +12,36 @@ C01 driver: stateful line protocol around Model/Timeline.lean.
                                 numpy's binary search / insert / delete as modelled algorithms (stateless)
   npstate t                     bsearch vs the model's prefix count on the current point times and quarter times
 
-Every answer except `inv`, `winv`, `np …` is `<result>;<full canonical dump of the state>`.
+  round 5 (Model/TimelineX.lean; the state is a `CPart`: the part and the memo `_quarter_map`):
+  reset0 <n c…>                 new Part(id) with the default quarter_duration
+  tpadd s|e t oid | tprm s|e t oid      part.get_point(t).add_*_object(o) / remove_*_object(o)
+  slurS oid note | slurE oid note       slur.start_note = note / slur.end_note = note
+  rmx oid w                     part.remove(o[, which]) with `which` a string (`-` = omitted)
+  addd oid st en                part.add(o[, start][, end]); `_` = omitted, `-` = None
+  allx cls a b incl mode        iter_all with bounds `-` | n <rat> | p <rat> (number / TimePoint), incl `_`|bool, mode `_`|str
+  qmap <n x…>                   answers fresh map / memoised map
+  cache                         `1` iff the memo is the map of the current table
+  bkreset | bkadd oid | bkrmt oid | bkrmk oid | bkiter cls incl | bktotal
+                                one registry as the code stores it (Model/TimelineBuckets.lean: class-keyed
+                                defaultdict of ordered sets); answers `<result>;<non-empty buckets by class id>`
+
+Every answer except `inv`, `winv`, `cache`, `np …` is `<result>;<full canonical dump of the state>`; the `M`
+component of the dump is the MEMO evaluated at the probe times.
 -/
 import PartituraModel.Wire
 import PartituraModel.Model.Timeline
 import PartituraModel.Model.TimelineExt
+import PartituraModel.Model.TimelineX
+import PartituraModel.Model.TimelineBuckets
 
 open Wire TL
 
 structure DState where
-  part : Part
+  cpart : CPart
   classes : List Nat
+  bk : Buckets := []
+
+def DState.part (d : DState) : Part := d.cpart.part
 
 def insertSorted (x : Nat) : List Nat → List Nat
   | [] => [x]
@@ -53,7 +72,7 @@ def dump (d : DState) : String :=
   ++ ";Q" ++ fmtList fmtPair (quarterDurations s none none)
   ++ ";QT" ++ fmtList fmtInt (s.qtab.map (·.1))
   ++ ";QD" ++ fmtList fmtNat (s.qtab.map (·.2))
-  ++ ";M" ++ fmtList (fmtOpt fmtNat) (probes.map (qdAt s.qtab))
+  ++ ";M" ++ fmtList (fmtOpt fmtNat) (probes.map (qdAt d.cpart.qcache))
 
 def fmtErr : Err → String
   | .invalidTimePoint => "err:InvalidTimePointException"
@@ -105,6 +124,54 @@ def parseOp (classes : List Nat) : List String → Option Op
   | "qds" :: rest => run (do let a ← opt int; let b ← opt int; pure (Op.quarterDurations a b)) rest
   | _ => none
 
+def parseSide : P Side := do
+  let t ← tok
+  match t with
+  | "s" => pure .start
+  | "e" => pure .stop
+  | _ => P.fail
+
+/-- `_` = the argument is omitted -/
+def omittable {α : Type} (p : P α) : P (Option α) := fun ts => match ts with
+  | "_" :: rest => some (none, rest)
+  | _ => (p ts).map fun r => (some r.1, r.2)
+
+def parseBound : P Bound := do
+  let t ← tok
+  match t with
+  | "-" => pure .absent
+  | "n" => do let x ← rat; pure (.num x)
+  | "p" => do let x ← rat; pure (.point x)
+  | _ => P.fail
+
+def parseOpX (classes : List Nat) : List String → Option OpX
+  | "tpadd" :: rest => run (do
+      let sd ← parseSide; let t ← int; let i ← nat
+      pure (OpX.tpAdd sd t { id := i, cls := classes.getD i 0 })) rest
+  | "tprm" :: rest => run (do
+      let sd ← parseSide; let t ← int; let i ← nat
+      pure (OpX.tpRemove sd t { id := i, cls := classes.getD i 0 })) rest
+  | "slurS" :: rest => run (do
+      let i ← nat; let j ← nat
+      pure (OpX.slurStart { id := i, cls := classes.getD i 0 } { id := j, cls := classes.getD j 0 })) rest
+  | "slurE" :: rest => run (do
+      let i ← nat; let j ← nat
+      pure (OpX.slurEnd { id := i, cls := classes.getD i 0 } { id := j, cls := classes.getD j 0 })) rest
+  | "rmx" :: rest => run (do
+      let i ← nat; let w ← opt str
+      pure (OpX.removeX { id := i, cls := classes.getD i 0 } w)) rest
+  | "addd" :: rest => run (do
+      let i ← nat; let st ← omittable (opt int); let en ← omittable (opt int)
+      pure (OpX.addDefault { id := i, cls := classes.getD i 0 } st en)) rest
+  | "allx" :: rest => run (do
+      let c ← opt nat; let a ← parseBound; let b ← parseBound; let incl ← omittable bool; let m ← omittable str
+      pure (OpX.iterAllX c a b incl m)) rest
+  | ts => (parseOp classes ts).map OpX.base
+
+def fmtOutX : OutX → String
+  | .base o => fmtOut o
+  | .qmap l => "qmap:" ++ fmtList (fmtOpt fmtNat) l
+
 def sweep (s : Part) (a b : Option Int) (withNone : Bool) : String :=
   let clss : List (Option Nat) := (if withNone then [none] else []) ++ (List.range Gen.numClasses).map some
   let one (c : Option Nat) : String :=
@@ -112,19 +179,54 @@ def sweep (s : Part) (a b : Option Int) (withNone : Bool) : String :=
       [(false, .starting), (false, .ending), (true, .starting), (true, .ending)]
   "sweep:" ++ fmtList one clss
 
+def fmtBuckets (b : Buckets) : String :=
+  let ne := b.filter (fun e => !e.2.isEmpty)
+  let keys := ne.foldl (fun acc e => insertSorted e.1 acc) []
+  fmtList (fun c => fmtTuple [fmtNat c, fmtList (fun o => fmtNat o.id) (b.get c)]) keys
+
+def fmtBOut : BOut → String
+  | .unit => "ok"
+  | .objs l => "objs:" ++ fmtList (fun o => fmtNat o.id) l
+  | .count n => "n:" ++ fmtNat n
+
+def parseBOp (classes : List Nat) : List String → Option BOp
+  | "bkadd" :: rest => run (do let i ← nat; pure (BOp.add { id := i, cls := classes.getD i 0 })) rest
+  | "bkrmt" :: rest => run (do let i ← nat; pure (BOp.removeTouch { id := i, cls := classes.getD i 0 })) rest
+  | "bkrmk" :: rest => run (do let i ← nat; pure (BOp.removeIfKey { id := i, cls := classes.getD i 0 })) rest
+  | "bkiter" :: rest => run (do let c ← opt nat; let incl ← bool; pure (BOp.iter c incl)) rest
+  | ["bktotal"] => some BOp.total
+  | _ => none
+
 def handle (d : DState) (ts : List String) : DState × String :=
   match ts with
+  | ["bkreset"] => ({ d with bk := [] }, "ok;" ++ fmtBuckets [])
+  | "bkadd" :: _ | "bkrmt" :: _ | "bkrmk" :: _ | "bkiter" :: _ | "bktotal" :: _ =>
+    match parseBOp d.classes ts with
+    | some op =>
+      let r := stepB d.bk op
+      ({ d with bk := r.1 }, fmtBOut r.2 ++ ";" ++ fmtBuckets r.1)
+    | none => (d, "bad-request")
   | "reset" :: rest =>
     match run (do let q ← nat; let cs ← list nat; pure (q, cs)) rest with
     | some (q, cs) =>
-      let d' : DState := { part := Part.init q, classes := cs }
+      let d' : DState := { d with cpart := CPart.init q, classes := cs }
+      (d', "ok;" ++ dump d')
+    | none => (d, "bad-request")
+  | "reset0" :: rest =>
+    match run (list nat) rest with
+    | some cs =>
+      let d' : DState := { d with cpart := CPart.initDefault, classes := cs }
       (d', "ok;" ++ dump d')
     | none => (d, "bad-request")
   | ["inv"] => (d, fmtBool (invB d.part))
   | ["winv"] => (d, fmtBool (winvB d.part))
+  | ["cache"] => (d, fmtBool (decide (CacheOk d.cpart)))
   | "qmap" :: rest =>
     match run (list rat) rest with
-    | some xs => (d, "qmap:" ++ fmtList (fmtOpt fmtNat) (quarterMap d.part xs) ++ ";" ++ dump d)
+    | some xs =>
+      match stepX d.cpart (.mapFresh xs), stepX d.cpart (.mapCached xs) with
+      | .ok (_, f), .ok (_, c) => (d, fmtOutX f ++ "/" ++ fmtOutX c ++ ";" ++ dump d)
+      | _, _ => (d, "bad-request")
     | none => (d, "bad-request")
   | "np" :: "ss" :: rest =>
     match run (do let a ← list int; let k ← int; pure (a, k)) rest with
@@ -151,13 +253,13 @@ def handle (d : DState) (ts : List String) : DState × String :=
     | some (a, b, n) => (d, sweep d.part a b n ++ ";" ++ dump d)
     | none => (d, "bad-request")
   | _ =>
-    match parseOp d.classes ts with
+    match parseOpX d.classes ts with
     | none => (d, "bad-request")
     | some op =>
-      match step d.part op with
-      | .ok (s', out) =>
-        let d' := { d with part := s' }
-        (d', fmtOut out ++ ";" ++ dump d')
+      match stepX d.cpart op with
+      | .ok (c', out) =>
+        let d' := { d with cpart := c' }
+        (d', fmtOutX out ++ ";" ++ dump d')
       | .error e => (d, fmtErr e ++ ";" ++ dump d)
 
-def main : IO Unit := mainLoopS handle { part := Part.init 1, classes := [] }
+def main : IO Unit := mainLoopS handle { cpart := CPart.init 1, classes := [] }
